@@ -81,10 +81,14 @@ def template(t, n):
         return [Fraction(Product((raw([b, a]), raw([c]))), raw([a, b])), raw([d])]
     if t == 19:  # the same with the shared factor under a Sum and with permuted parents
         return [Fraction(Product((Sum(raw([a], [c, b]), fs([c])), raw([d]))), Sum(raw([a], [b, c]), fs([c]))), raw([b])]
+    if t == 20:  # two sums over one body whose ranges are two-element sets (a key that reads a set in hash order ties or flips)
+        return [Sum(raw([y], [a, b, c, d]), fs([a, d])), Sum(raw([y], [a, b, c, d]), fs([b, c]))]
+    if t == 21:  # overlapping three-element ranges next to a plain factor
+        return [Sum(raw([y], [a, b, c, d]), fs([a, b, c])), Sum(raw([y], [a, b, c, d]), fs([b, c, d])), raw([z], [y])]
     raise ValueError(t)
 
 
-N_TEMPLATES = 20
+N_TEMPLATES = 22
 PERMS4 = list(itt.permutations(range(4)))
 
 
@@ -127,7 +131,7 @@ def ordering(o, n):
 
 def idempotent(t: int, m: int, o: int) -> bool:
     """
-    pre: 0 <= t < 20 and 0 <= m < 24 and 0 <= o < 3
+    pre: 0 <= t < 22 and 0 <= m < 24 and 0 <= o < 3
     post: __return__
     """
     n = NAME_PERMS[m]
@@ -140,7 +144,7 @@ def idempotent(t: int, m: int, o: int) -> bool:
 
 def presentation_invariant(t: int, m: int, o: int, p: int, nest: int, rev: int) -> bool:
     """
-    pre: 0 <= t < 20 and 0 <= m < 24 and 0 <= o < 3 and 0 <= p < 6 and 0 <= nest < 3 and 0 <= rev < 2
+    pre: 0 <= t < 22 and 0 <= m < 24 and 0 <= o < 3 and 0 <= p < 6 and 0 <= nest < 3 and 0 <= rev < 2
     post: __return__
     """
     n = NAME_PERMS[m]
@@ -153,7 +157,7 @@ def presentation_invariant(t: int, m: int, o: int, p: int, nest: int, rev: int) 
 
 def keys_total(t: int, u: int, m: int) -> bool:
     """
-    pre: 0 <= t < 20 and 0 <= u < 20 and 0 <= m < 24
+    pre: 0 <= t < 22 and 0 <= u < 22 and 0 <= m < 24
     post: __return__
     """
     n = NAME_PERMS[m]
@@ -169,7 +173,7 @@ def keys_total(t: int, u: int, m: int) -> bool:
 
 def reach_twin(t: int, m: int) -> bool:
     """
-    pre: 0 <= t < 20 and 0 <= m < 24
+    pre: 0 <= t < 22 and 0 <= m < 24
     post: __return__
     """
     n = NAME_PERMS[m]
